@@ -16,6 +16,7 @@ import (
 	"strconv"
 	"strings"
 	"sync"
+	"sync/atomic"
 	"time"
 
 	"github.com/saucelabs/forwarder/ratelimit"
@@ -154,11 +155,19 @@ func c20Run(e *env) {
 
 func c20Case1(seed int64, idx int, c *c20Case) (map[string]any, []map[string]any) {
 	res := map[string]any{"ok": true, "c": c.C, "exp": c.Exp}
+	var rmu sync.Mutex
+	var aborted atomic.Bool
 	fail := func(why string) {
-		if res["ok"] == true {
+		rmu.Lock()
+		defer rmu.Unlock()
+		if res["ok"] == true && !aborted.Load() {
 			res["ok"], res["why"] = false, why
 		}
 	}
+	// a limited crowd is observed for a fixed window of an endless transfer (the backlog in the limiter must be
+	// seconds deep, which a transfer that ends soon never shows), then cut off
+	windowed := c.C.Conns > 3 && c.Exp.Limited
+	const window = 3 * time.Second
 	f, err := startFwd(fwdCfg{Name: "fwd", Localhost: "allow", ReadLimit: int64(c.C.Read) * mib, WriteLimit: int64(c.C.Write) * mib})
 	if err != nil {
 		fatal("start: %v", err)
@@ -170,6 +179,10 @@ func c20Case1(seed int64, idx int, c *c20Case) (map[string]any, []map[string]any
 	}
 	total := int64(12 * mib)
 	per := total / int64(c.C.Conns)
+	if windowed {
+		per = 4 * mib
+		total = per * int64(c.C.Conns)
+	}
 	smp := &sampler{}
 	// target: an origin / tunnel end that sends or receives `per` bytes per connection
 	ln, err := net.Listen("tcp", "127.0.0.1:0")
@@ -239,6 +252,8 @@ func c20Case1(seed int64, idx int, c *c20Case) (map[string]any, []map[string]any
 		}
 	}()
 	var wg sync.WaitGroup
+	var cmu sync.Mutex
+	var clients []*rawClient
 	smp.t0 = time.Now()
 	for k := 0; k < c.C.Conns; k++ {
 		k := k
@@ -252,6 +267,9 @@ func c20Case1(seed int64, idx int, c *c20Case) (map[string]any, []map[string]any
 				return
 			}
 			defer cl.close()
+			cmu.Lock()
+			clients = append(clients, cl)
+			cmu.Unlock()
 			if c.C.Kind == "tunnel" {
 				cl.send([]byte("CONNECT origin.test:8080 HTTP/1.1\r\nHost: origin.test:8080\r\n\r\n"))
 				r, err := readWireResponseHeadOnlyT(cl, 8*time.Second)
@@ -315,6 +333,41 @@ func c20Case1(seed int64, idx int, c *c20Case) (map[string]any, []map[string]any
 				dmu.Unlock()
 			}
 		}()
+	}
+	if windowed {
+		time.Sleep(window)
+		smp.final()
+		smp.mu.Lock()
+		moved, at := smp.total, time.Since(smp.t0)
+		smp.mu.Unlock()
+		aborted.Store(true)
+		cmu.Lock()
+		for _, cc := range clients {
+			cc.close()
+		}
+		cmu.Unlock()
+		ln.Close()
+		wg.Wait()
+		res["elapsed_ms"], res["moved"] = at.Milliseconds(), moved
+		const chunk = 64 << 10
+		rate := int64(c.Exp.Rate) * mib
+		bound := burst + int64(float64(rate)*at.Seconds()) + int64(c.C.Conns)*chunk
+		res["bound"] = bound
+		rmu.Lock()
+		if moved > bound {
+			res["ok"], res["why"] = false, fmt.Sprintf("%d connections moved %d bytes in %v through a %d MiB/s limit with burst %d: faster than burst + rate x time + one chunk per connection allows (%d)", c.C.Conns, moved, at, c.Exp.Rate, burst, bound)
+		} else if moved < burst/2 {
+			res["ok"], res["why"] = false, fmt.Sprintf("only %d of the transfers' bytes arrived in %v: transfers incomplete / stalled", moved, at)
+		}
+		rmu.Unlock()
+		tr := []map[string]any{{"ev": "reset", "idx": idx, "burst": int(burst / 1024), "rate": c.Exp.Rate * 1024, "conns": c.C.Conns, "chunk": 64, "limited": true}}
+		smp.mu.Lock()
+		for _, s := range smp.samples {
+			tr = append(tr, map[string]any{"ev": "sample", "ms": int(s[0]), "kib": int(s[1])})
+		}
+		res["samples"] = len(smp.samples)
+		smp.mu.Unlock()
+		return res, tr
 	}
 	wg.Wait()
 	time.Sleep(20 * time.Millisecond)
